@@ -12,6 +12,9 @@ nap = os.path.join(ROOT, "props", "not_applicable.json")
 if os.path.exists(nap):
     na_reasons = json.load(open(nap))
 hooks = json.load(open(os.path.join(ROOT, "props", "hooks.json")))
+# only properties whose check has been seen green on the unchanged tree are claimed
+registered = set(json.load(open(os.path.join(ROOT, "props", "registered.json"))))
+props = {k: v for k, v in props.items() if k in registered}
 checks = []
 for i in ids:
     if i not in props:
